@@ -32,7 +32,7 @@ from scratch import Scratch, sha256_item  # noqa: E402
 import units as U  # noqa: E402
 
 CONTRACTS = os.path.join(VERIF, 'contracts')
-EVIDENCE = os.path.join(VERIF, 'evidence')
+EVIDENCE = os.environ.get('VERIF_EVIDENCE_DIR') or os.path.join(VERIF, 'evidence')
 REPLAY_DIR = os.path.join(EVIDENCE, 'replay')
 LOG_DIR = os.path.join(EVIDENCE, 'logs')
 KNOWN = os.path.join(VERIF, 'findings', 'known_findings.json')
@@ -589,6 +589,9 @@ def main():
     ap.add_argument('--only', action='append')
     args = ap.parse_args()
     seed = int(os.environ.get('VERIF_SEED', '0'))
+    if args.target == 'selftest':
+        import selftest
+        return selftest.main(args.only or [])
     if args.target == 'lock':
         gen_lock(['quick', 'thorough'] if args.tier == 'thorough' else ['quick'], args.repo)
         return 0
